@@ -35,7 +35,7 @@ impl %(ty)s {
               key="%s::prepare_simple_expr_common[CustomWithExpr arm]" % ty, vpath="%s::custom_with_expr_arm" % ty,
               rules=[make_r_sub("R-arm", r"fn custom_with_expr_arm\(", "fn custom_with_expr_arm<W: VWrite>("),
                      make_r_sub("R-peek", r"Tokenizer::new\(expr\)\.iter\(\)\.peekable\(\)", "VPeek::new(Tokenizer::new(expr.as_str()).iter())"),
-                     make_r_sub("R-strfn", r"if mark == placeholder", "if vstr_eq(mark.as_str(), placeholder)", min_count=2),
+                     make_r_sub("R-strfn", r"\bmark == placeholder\b", "vstr_eq(mark.as_str(), placeholder)", min_count=2),
                      make_r_sub("R-strfn", r"if let Ok\(num\) = tok\.parse::<usize>\(\)", "if let Some(num) = vparse_usize(tok.as_str())"),
                      # R-block: an expression arm `_ => e,` becomes the block arm `_ => { e; }` (same meaning for e: ()) so that a proof hint can follow it
                      make_r_sub("R-block", r'_ => write!\(sql, "\{token\}"\)\.unwrap\(\),', '_ => { write!(sql, "{token}").unwrap(); }'),
